@@ -16,7 +16,11 @@
 (*             (strings.EqualFold): U+212A KELVIN SIGN folds to k, U+017F     *)
 (*             LONG S to s, so a look-alike of the last accepted name hits    *)
 (*             the memo although its ToASCII form (an xn-- label, longer) has *)
-(*             a different verdict;                                           *)
+(*             a different verdict.  The fold class stands for ANY lossy key: *)
+(*             lower-casing, normalisation, a truncated prefix, a 32-bit      *)
+(*             checksum of the name (two names with the same checksum are     *)
+(*             "equal" for a memo that keeps only the checksum) - the harness *)
+(*             finds such pairs of different validity by birthday search;     *)
 (*   "shared"  ONE memo for all kinds ("hostname-valid => SRV-valid =>        *)
 (*             domain-valid", so a hit in a stricter validator's memo is fine *)
 (*             for a more lenient one - but the lenient ones write it too);   *)
